@@ -283,7 +283,7 @@ def _solo(plan, j, poison):
     pool = build_pool(plan["specs"])
     out = call_op(plan["ops"][j], pool, fns)
     w = [(c, m) for c, m, _ in seams.WARN.take()]
-    return outcome_digest(out), core.digest(w), (core.brief(out[1]) if out[0] != "abort" else "")
+    return outcome_digest(out), core.digest(w), (core.brief(out[1]) if out[0] != "abort" else ""), seams.ALLOC["fired"]
 
 
 def other_poison(p):
@@ -312,6 +312,7 @@ def execute(plan, want_logs=False):
     used = sorted(set(j for seq in plan["actors"].values() for j in seq))
     # ---- solo references (before anything is called in this process) ---------------------
     solo = {}
+    uninit = set()
     pB = other_poison(plan["poison"])
     for j in used:
         st, res = core.fork_call(_solo, (plan, j, pB), timeout=60.0)
@@ -319,6 +320,15 @@ def execute(plan, want_logs=False):
             raise RuntimeError("solo reference for op %d (%s) failed: %s %s" % (j, plan["ops"][j]["fn"], st, res))
         solo[j] = res
         stats.inc("solo_forks")
+        if res[3]:
+            # the op allocated np.empty buffers: run it alone once more under the run's own poison; the two
+            # solo executions differ in nothing but heap content, so a difference is an uninitialised read
+            st2, res2 = core.fork_call(_solo, (plan, j, plan["poison"]), timeout=60.0)
+            stats.inc("solo_forks")
+            if st2 == "ok" and res2[0] != res[0]:
+                uninit.add(j)
+                report("UNINIT_READ", plan["ops"][j]["fn"], "%s(%s) alone under heap poison %s -> %s %s ; alone under poison %s -> %s %s" % (
+                    plan["ops"][j]["fn"], _argstr(plan["ops"][j]), pB, res[0], res[2], plan["poison"], res2[0], res2[2]))
     # ---- the run ------------------------------------------------------------------------
     seams.set_poison(plan["poison"])
     seams.WARN.install()
@@ -393,17 +403,12 @@ def execute(plan, want_logs=False):
             state["skip_i3"].discard(me)
             stats.inc("i3_skipped_after_mutation")
         elif not aborted:
-            sd, sw, sbrief = solo[j]
+            sd, sw, sbrief = solo[j][:3]
             wd = core.digest([(c, m) for c, m, _ in warns])
-            if od != sd:
-                cls = "RESULT_DIFFERS"
-                st, resA = core.fork_call(_solo, (plan, j, plan["poison"]), timeout=60.0)
-                if st == "ok" and resA[0] != sd:
-                    cls = "UNINIT_READ"
-                elif threaded:
-                    cls = "CONCURRENT_DIFFERS"
-                else:
-                    cls = "HISTORY_DEPENDENT"
+            if j in uninit:
+                stats.inc("i3_skipped_uninit")
+            elif od != sd:
+                cls = "CONCURRENT_DIFFERS" if threaded else "HISTORY_DEPENDENT"
                 report(cls, fn, "%s(%s): in the run (heap poison %s, after %s) -> %s %s ; alone (poison %s) -> %s %s" % (
                     fn, _argstr(opd), plan["poison"], state["prev_fn"], od, core.brief(out[1]), pB, sd, sbrief))
             elif wd != sw:
